@@ -331,3 +331,50 @@ VARIANTS += [
     V('C04', 'twin: zero-initialised int buffer', MI, "final_index_array = np.empty(final_space_size)", "final_index_array = np.empty(final_space_size, dtype=np.int64)", expect='clean'),
     V('C04', 'twin: upper bound inlined', MI, "        second_offset = (index_offset + x_indices_len)\n        final_index_array[index_offset:second_offset] = x_indices", "        final_index_array[index_offset:index_offset + x_indices_len] = x_indices", expect='clean'),
 ]
+
+# ---------------------------------------------------------------- C01 / C02 / C03 (kernel)
+VARIANTS += [
+    V('C01', 'normaliser len(class_counts)', MI, "class_probability = class_counts[k] / all_events", "class_probability = class_counts[k] / len(class_counts)"),
+    V('C01', 'conditional denominator all_events', MI, "conditional_prob = nonzero_counts[index] / class_var_shape", "conditional_prob = nonzero_counts[index] / class_var_shape\n        conditional_prob = conditional_prob * 1.0", expect='clean'),
+    V('C01', 'class_var_shape fed all_events', MI, "            Y_classes, class_values, _f_value_counts, initial_prob, nonzero_class_counts,\n", "            Y_classes, class_values, all_events, initial_prob, nonzero_class_counts,\n"),
+    V('C01', 'weight dropped', MI, "                initial_prob * conditional_prob * np.log(conditional_prob)", "                conditional_prob * np.log(conditional_prob)"),
+    V('C01', 'sign flipped in return', MI, "        return full_entropy - conditional_entropy", "        return full_entropy + conditional_entropy"),
+    V('C01', 'log2', MI, "full_entropy += -class_probability * np.log(class_probability)", "full_entropy += -class_probability * np.log2(class_probability)"),
+    V('C01', 'class loop shortened', MI, "        for k in prange(len(class_counts)):", "        for k in prange(len(class_counts) - 1):"),
+    V('C01', 'skip guard widened', MI, "        if _f_value_counts == 1:\n            continue", "        if _f_value_counts <= 2:\n            continue"),
+    V('C01', 'X/Y swapped at call site', MI, "    joint_entropy_core = compute_entropies(\n        X, Y, all_events,", "    joint_entropy_core = compute_entropies(\n        Y, X, all_events,"),
+    V('C01', 'count on the wrong vector', MI, "nonzero_class_counts[index] = np.count_nonzero(Y_classes == c)", "nonzero_class_counts[index] = np.count_nonzero(Y == c)"),
+    V('C01', 'stratum weight from class count', MI, "        initial_prob = _f_value_counts / all_events", "        initial_prob = class_counts[f_index] / all_events"),
+    V('C01', 'histogram shifted by minimum', MI, "    container = np.zeros(np.max(a) + 1, dtype=np.int32)\n    for val in a:\n        container[val] += 1", "    lowest = np.min(a)\n    container = np.zeros(np.max(a) - lowest + 1, dtype=np.int32)\n    for val in a:\n        container[val - lowest] += 1"),
+    V('C01', 'histogram counts every second element', MI, "    for val in a:\n        container[val] += 1", "    for val in a[::2]:\n        container[val] += 1"),
+    V('C01', 'manual class index skipped on zero', MI, "        if conditional_prob != 0:\n            conditional_entropy -= (\n                initial_prob * conditional_prob * np.log(conditional_prob)\n            )\n        index += 1", "        if conditional_prob == 0:\n            continue\n        conditional_entropy -= (\n            initial_prob * conditional_prob * np.log(conditional_prob)\n        )\n        index += 1"),
+    V('C01', 'result scaled twice', MI, "    return approximation_factor * joint_entropy_core", "    return approximation_factor * approximation_factor * joint_entropy_core"),
+    V('C01', 'p squared in entropy', MI, "full_entropy += -class_probability * np.log(class_probability)", "full_entropy += -class_probability * class_probability * np.log(class_probability)"),
+    V('C01', 'twin: factors reordered', MI, "                initial_prob * conditional_prob * np.log(conditional_prob)", "                np.log(conditional_prob) * conditional_prob * initial_prob", expect='clean'),
+    V('C01', 'twin: np.sum for count_nonzero', MI, "nonzero_class_counts[index] = np.count_nonzero(Y_classes == c)", "nonzero_class_counts[index] = np.sum(Y_classes == c)", expect='clean'),
+    V('C01', 'twin: range for prange', MI, "        for k in prange(len(class_counts)):", "        for k in range(len(class_counts)):", expect='clean'),
+    V('C01', 'twin: accumulate with -=', MI, "full_entropy += -class_probability * np.log(class_probability)", "full_entropy -= class_probability * np.log(class_probability)", expect='clean'),
+    # C03
+    V('C03', 'shift by 1', MI, "index = (el + _f_value_counts) % len(Y)", "index = (el + 1) % len(Y)"),
+    V('C03', 'modulo dropped', MI, "index = (el + _f_value_counts) % len(Y)", "index = (el + _f_value_counts)"),
+    V('C03', 'modulo stratum size', MI, "index = (el + _f_value_counts) % len(Y)", "index = (el + _f_value_counts) % subspace_size"),
+    V('C03', 'background weights differ', MI, "                Y_classes_spoofed, class_values, _f_value_counts, initial_prob, nonzero_class_counts_spoofed,", "                Y_classes_spoofed, class_values, _f_value_counts, 1.0, nonzero_class_counts_spoofed,"),
+    V('C03', 'background uses real counts', MI, "                Y_classes_spoofed, class_values, _f_value_counts, initial_prob, nonzero_class_counts_spoofed,", "                Y_classes_spoofed, class_values, _f_value_counts, initial_prob, nonzero_class_counts,"),
+    V('C03', 'sign swap on corrected path', MI, "core_joint_entropy = -conditional_entropy + background_cond_entropy", "core_joint_entropy = conditional_entropy - background_cond_entropy"),
+    V('C03', 'full entropy added on corrected path', MI, "core_joint_entropy = -conditional_entropy + background_cond_entropy", "core_joint_entropy = full_entropy - conditional_entropy + background_cond_entropy", expect='clean'),
+    V('C03', 'flag mapping widened', IE, "cardinality_correction = heuristic == 'MI-numba-randomized'", "cardinality_correction = 'MI-numba' in heuristic"),
+    V('C03', 'flag mapping inverted', IE, "cardinality_correction = heuristic == 'MI-numba-randomized'", "cardinality_correction = heuristic != 'MI-numba-randomized'"),
+    V('C03', 'pure stratum skipped', MI, "        # Right-shift to simulate noise\n", "        if np.min(Y_classes) == np.max(Y_classes):\n            continue\n\n        # Right-shift to simulate noise\n"),
+    V('C03', 'F1 reintroduced: sum of differences', MI, "    if np.array_equal(X, Y):", "    if np.sum(X - Y) == 0:"),
+    V('C03', 'spoofed buffer too short', MI, "Y_classes_spoofed = np.zeros(subspace_size, dtype=np.uint32)", "Y_classes_spoofed = np.zeros(subspace_size - 1, dtype=np.uint32)"),
+    V('C03', 'twin: shift operands reordered', MI, "index = (el + _f_value_counts) % len(Y)", "index = (_f_value_counts + el) % len(Y)", expect='clean'),
+    # C02
+    V('C02', 'F1 reintroduced: sum of differences', MI, "    if np.array_equal(X, Y):", "    if np.sum(X - Y) == 0:"),
+    V('C02', 'self-pair by equal sums', MI, "    if np.array_equal(X, Y):", "    if np.sum(X) == np.sum(Y):"),
+    V('C02', 'stratum by >=', MI, "x_value_subspace = np.where(X == f_values[f_index])", "x_value_subspace = np.where(X >= f_values[f_index])"),
+    V('C02', 'codes hashed into buckets', MI, "    f_values, f_value_counts = numba_unique(X)\n", "    X = X % 1024\n    f_values, f_value_counts = numba_unique(X)\n"),
+    V('C02', 'histogram shifted by minimum', MI, "    container = np.zeros(np.max(a) + 1, dtype=np.int32)\n    for val in a:\n        container[val] += 1", "    lowest = np.min(a)\n    container = np.zeros(np.max(a) - lowest + 1, dtype=np.int32)\n    for val in a:\n        container[val - lowest] += 1"),
+    V('C02', 'non-injective coder', CR, "tmp_df = pd.DataFrame({k : tmp_df[k].cat.codes for k in all_columns})", "tmp_df = pd.DataFrame({k : tmp_df[k].cat.codes % 256 for k in all_columns})"),
+    V('C02', 'twin: all(X == Y)', MI, "    if np.array_equal(X, Y):", "    if np.all(X == Y):", expect='clean'),
+    V('C02', 'twin: count_nonzero of difference', MI, "    if np.array_equal(X, Y):", "    if np.count_nonzero(X - Y) == 0:", expect='clean'),
+]
